@@ -1690,6 +1690,12 @@ def compare_model(ctx, cases, results, out, label):
             m = ("error", "tie")                  # compared on the exception class only
         if kind in MODEL_TIE and res[0] == "error" and res[1].startswith("tie:") and res[1] != "tie:" + kind:
             ctx.count("message-kind-differs-from-model")      # informative only
+        if m == ("error", "fuel") and want != ("error", "fuel"):
+            # the model ran out of fuel although the implementation answered: never a silent pass
+            ctx.count("model-fuel-exhausted")
+            ctx.broken("correspondence:c08:fuel-exhausted:" + label, "model out of fuel (%d) on %s; implementation: %s" % (
+                FUEL, tm_str(case["skel"]), want if want[0] != "ok" else "ok"))
+            continue
         if m != want:
             ndis += 1
             ctx.coverage["disagreements_checked"] += 1
@@ -1739,9 +1745,9 @@ def run(ctx):
         "overloaded constant of the signature, T monomorphic / over rigid 'a / over ?'a, recursive calls, annotated heads, malformed shapes "
         "with the same name, in hand-made clashes and in well-typed terms where one declared variable has 'a and ?'a exchanged. "
         "Non-trivial = skeleton has at least 4 nodes; distinct by skeleton + context.")
-    proofs_ok = ctx.lean_props(["Holpy.C08.Props"], exes=[EXE])
+    proofs_ok = ctx.lean_props(["Holpy.C08.Props", "Holpy.C08.Props2"], exes=[EXE])
     if ctx.tier == "thorough" and proofs_ok:
-        ctx.lean_check_modules(["Holpy.C08.Props"])
+        ctx.lean_check_modules(["Holpy.C08.Props", "Holpy.C08.Props2"])
     ctx.coverage["trusted_base"] += [
         "harness/props/c08.py: generators, the reference unifier used as completeness oracle, the tuple <-> Term conversion",
         "kernel Term.checked_get_type as the judge of 'type-checks'",
